@@ -28,11 +28,13 @@ E1 = {
     'C08': 'harness.c08_errors',
     'C09': 'harness.c09_resolver',
     'C10': 'harness.c10_hooks',
+    'C11': 'harness.c11_stateless',
     'C12': 'harness.c12_io',
     'C13': 'harness.c13_invariance',
     'C14': 'harness.c14_node',
     'C15': 'harness.c15_seasoning',
     'C16': 'harness.c16_require',
+    'C17': 'harness.c17_errors',
     'C18': 'harness.c18_alias',
 }
 E2 = {
